@@ -6,6 +6,7 @@ from __future__ import annotations
 
 import contextlib
 import io
+import os
 import sys
 
 
@@ -402,3 +403,64 @@ class Sentinels:
             else:
                 setattr(builtins, name, orig)
         return False
+
+
+# P7: source-free failpoints - a transient fault raised inside the repository's own functions
+class InjectedFault(Exception):
+    """the transient fault (an ordinary Exception: what a failing allocation, a full disk behind a logger, a
+    cancelled request or a host-side timeout look like to the library)"""
+
+
+class Failpoint:
+    """While the window is open, the k-th Python function *of the repository* that starts executing raises
+    InjectedFault instead (sys.monitoring PY_START; nothing in the repository is edited).  k=None only counts.
+    After the fault has fired once the window is inert, so clean-up code of the repository runs undisturbed."""
+
+    TOOL = 4
+    _claimed = False
+
+    def __init__(self, k=None, exc=InjectedFault):
+        import pyab_experiment
+
+        self.root = os.path.dirname(os.path.abspath(pyab_experiment.__file__)) + os.sep
+        self.k = k
+        self.exc = exc
+        self.events = 0
+        self.fired_in = None
+
+    def __enter__(self):
+        mon = sys.monitoring
+        if not Failpoint._claimed:
+            mon.use_tool_id(self.TOOL, "pyabv-failpoint")
+            Failpoint._claimed = True
+
+        def on_start(code, offset):
+            if self.fired_in is not None or not code.co_filename.startswith(self.root):
+                return None
+            self.events += 1
+            if self.k is not None and self.events == self.k:
+                self.fired_in = f"{os.path.basename(code.co_filename)}:{code.co_name}"
+                raise self.exc("injected transient fault")
+            return None
+
+        mon.register_callback(self.TOOL, mon.events.PY_START, on_start)
+        mon.set_events(self.TOOL, mon.events.PY_START)
+        return self
+
+    def __exit__(self, *exc):
+        mon = sys.monitoring
+        mon.set_events(self.TOOL, 0)
+        mon.register_callback(self.TOOL, mon.events.PY_START, None)
+        return False
+
+
+def at_depth(headroom, fn):
+    """calls fn() from a call stack that leaves about `headroom` frames below the recursion limit"""
+    n, f = 0, sys._getframe()
+    while f is not None:
+        n, f = n + 1, f.f_back
+
+    def dive(d):
+        return fn() if d <= 0 else dive(d - 1)
+
+    return dive(max(0, sys.getrecursionlimit() - headroom - n - 2))
